@@ -803,16 +803,18 @@ func runC03(c *Ctx) {
 	r7 := c.Rule("R7", "block string escape and whitespace", 3)
 	if rb := p.Func("lexer.(*Lexer).readBlockString"); rb != nil {
 		okEsc, okWrite := false, false
-		allInstrs(rb, func(in ssa.Instruction) {
-			if comparesWithConst(in, `\"""`) {
-				okEsc = true
-			}
-			if call, ok := in.(*ssa.Call); ok && strings.HasSuffix(calleeName(call), ".WriteString") && len(call.Call.Args) == 2 {
-				if s, ok := constString(call.Call.Args[1]); ok && s == `"""` {
-					okWrite = true
+		for _, sub := range withLexerCallees(rb) {
+			allInstrs(sub, func(in ssa.Instruction) {
+				if comparesWithConst(in, `\"""`) {
+					okEsc = true
 				}
-			}
-		})
+				if call, ok := in.(*ssa.Call); ok && strings.HasSuffix(calleeName(call), ".WriteString") && len(call.Call.Args) == 2 {
+					if s, ok := constString(call.Call.Args[1]); ok && s == `"""` {
+						okWrite = true
+					}
+				}
+			})
+		}
 		if okEsc && okWrite {
 			r7.OK(`block strings decode \""" to """ and nothing else`, "")
 		} else {
@@ -1127,11 +1129,21 @@ func c03Unhex(c *Ctx, r *RuleResult, unhex *ssa.Function) {
 			}
 		}
 	})
+	maxChar := int64(0x10FFFF)
+	if cv == nil {
+		// a loop over the bytes: the byte read at the loop index
+		allInstrs(unhex, func(in ssa.Instruction) {
+			if _, v, ok := strIndex(in); ok && isByteVal(v) && cv == nil {
+				cv = v
+				maxChar = 0xFF
+			}
+		})
+	}
 	if cv == nil {
 		r.Fail(unhex.Pos(), p.FuncName(unhex), "no per-character loop", "unhex no longer examines each character")
 		return
 	}
-	sets := reachSets(unhex, cv, cv.(ssa.Instruction).Block(), ivFull(0x10FFFF))
+	sets := reachSets(unhex, cv, cv.(ssa.Instruction).Block(), ivFull(maxChar))
 	// classify blocks by the subtraction constant
 	type w struct {
 		sub, add int64
@@ -1175,7 +1187,7 @@ func c03Unhex(c *Ctx, r *RuleResult, unhex *ssa.Function) {
 		}
 	}
 	hex := ivOf('0', '9', 'A', 'F', 'a', 'f')
-	comp := ivFull(0x10FFFF)
+	comp := ivFull(maxChar)
 	for _, x := range hex {
 		comp = comp.intersectRange(-1, x[0]-1).union(comp.intersectRange(x[1]+1, 1<<40))
 	}
@@ -1356,4 +1368,21 @@ func lexerAcceptsHighCharacters(c *Ctx, r *RuleResult) {
 		}
 	}
 
+}
+
+// withLexerCallees: fn and the methods of the same package it hands part of its scan to (transitively).
+func withLexerCallees(fn *ssa.Function) []*ssa.Function {
+	out := []*ssa.Function{fn}
+	seen := map[*ssa.Function]bool{fn: true}
+	for i := 0; i < len(out) && i < 12; i++ {
+		allInstrs(out[i], func(in ssa.Instruction) {
+			if ci, ok := in.(ssa.CallInstruction); ok {
+				if h := ci.Common().StaticCallee(); h != nil && !seen[h] && h.Pkg == fn.Pkg && len(h.Blocks) > 0 && h.Signature.Recv() != nil && !strings.HasPrefix(h.Name(), "make") {
+					seen[h] = true
+					out = append(out, h)
+				}
+			}
+		})
+	}
+	return out
 }
